@@ -717,6 +717,9 @@ def get_bv_width(node):  # noqa: C901
         if is_bv_sort(bvsort):
             return int(bvsort[2].data)
         return -1
+    if len(node) < 2:
+        # not a constant or symbol, and no operand: width unknown
+        return -1
     if is_indexed_operator_app(node, 'zero_extend') \
        or is_indexed_operator_app(node, 'sign_extend'):
         width = get_bv_width(node[1])
@@ -768,7 +771,7 @@ def get_bv_width(node):  # noqa: C901
             return sum(widths)
         if ident == 'bvcomp':
             return 1
-        if ident == 'ite':
+        if ident == 'ite' and len(node) > 2:
             bw = get_bv_width(node[2])
             if bw > 0:
                 return bw
